@@ -127,6 +127,18 @@ def rand_pair(rng):
     salt = rng.randrange(10**6)
     old = rand_side(rng, old_files, exp, salt)
     new = rand_side(rng, new_files, exp, salt)
+    if new and rng.random() < 0.3:
+        # the same hash *values* recorded under another algorithm name on the new side (an md5-dos2unix -> md5 migration,
+        # etags): a whole top-level sub-tree (or the whole index) switches, directory hashes included, so the index stays
+        # consistent (a directory's hash changes whenever something recorded below it does)
+        from dvc_data.hashfile.hash_info import HashInfo
+
+        tops = sorted({k[0] for k, _, _ in new})
+        top = rng.choice(tops + [None])
+        name = rng.choice(["md5-dos2unix", "etag"])
+        for i, (k, m, h) in enumerate(new):
+            if h is not None and h.value and (top is None or k[0] == top):
+                new[i] = (k, m, HashInfo(name, h.value))
     r = rng.random()
     if r < 0.05:
         old = None
@@ -312,7 +324,7 @@ def table(ctx):
     from dvc_data.index.diff import _diff_entry
 
     metas = [None, Meta(size=1), Meta(size=2), Meta(size=1, isexec=True), Meta(isdir=True)]
-    his = [None, HashInfo("md5", ""), HashInfo("md5", "h1"), HashInfo("md5", "h2"), HashInfo("md5", "h1.dir")]
+    his = [None, HashInfo("md5", ""), HashInfo("md5", "h1"), HashInfo("md5", "h2"), HashInfo("md5", "h1.dir"), HashInfo("etag", "h1")]
     sides = [None] + [(m, h) for m in metas for h in his]
     rows, impl = [], []
     for o, n in itertools.product(sides, sides):
